@@ -7,7 +7,7 @@ for sd in "$@"; do
     pkg=$(python3 -c "import json;print(json.load(open('$d/meta.json'))['package'].rstrip('/'))")
     run=$(python3 -c "import json;print(json.load(open('$d/meta.json'))['test'])")
     needs=$(python3 -c "import json;print(json.load(open('$d/meta.json'))['needs'])")
-    id="$prop-r4${n##*-}"
+    id="$prop-r${ROUND:-4}${n##*-}"
     /verif/tools/confirm_seed.sh "$d" "$id" "$prop" "$pkg" "$run" "$needs" 2>&1 | grep "^$id" 
   done
 done
